@@ -554,3 +554,12 @@ def i14(ctx):
 
 
 RULES.append(i14)
+
+
+@rule("I15", doc="an e-node is stored with an injective completion of its class's argument map (C03.H10 fresh-per-completed-slot): with a shared placeholder for two redundant slots the stored node changes shape at its next re-canonicalisation and a term that is represented is inserted again as a new class")
+def i15_h10(ctx):
+    from . import c03
+    c03.h10(ctx)
+
+
+RULES.append(i15_h10)
